@@ -6,6 +6,7 @@ from ..core import (AnalysisError, dotted, unparse, calls_in, call_name,
                     walk_no_defs, parent, ancestors, ClassInfo, FuncInfo)
 from ..flow import guards_at, flatten_guards, SeqFlow, RETURN
 from .. import guardspec
+from ..report import Result
 from ..ownership import Ownership, mutation_sites, chain, FRESH_CALLS
 from ..setflow import (set_typed_names, unordered_iterations,
                        class_set_attributes)
@@ -628,18 +629,71 @@ def rule_r5(prog, res):
     res.floor('R5', 'parent re-customisation sites', n, 2)
 
 
+# ------------------------------------------------------------------- R6
+def rule_r6(prog, res):
+    res.rule('R6', 'derivation helpers always derive: they never hand back '
+             'the class they were given')
+    m = prog.module('spyne.model.complex')
+    n = 0
+    for nm in ('Mandatory',):
+        f = m.functions.get(nm)
+        if f is None:
+            raise AnalysisError('spyne.model.complex.' + nm, 'not found')
+        src = f.params()[0]
+        for r in walk_no_defs(f.node):
+            if not isinstance(r, ast.Return):
+                continue
+            n += 1
+            same = isinstance(r.value, ast.Name) and r.value.id == src
+            where = '%s:%d' % (m.relpath, r.lineno)
+            res.ob('R6', where, '%s returns %s' % (nm, unparse(
+                r.value)[:50] if r.value is not None else 'None'),
+                'VIOLATED' if same else 'ok')
+            if same:
+                g = [unparse(e)[:40] for e, _ in flatten_guards(
+                    guards_at(r, stop=f.node))]
+                res.finding('R6', '%s|returns-argument|%s' % (nm, g), where,
+                            '%s returns its argument unchanged under %s: the '
+                            'result is the very class that was passed in, so '
+                            'the special cases of the derivation (min_len '
+                            'for text, mandatory array members, the '
+                            'Mandatory* type name) are skipped and later '
+                            'customisation of the result changes the '
+                            'source' % (nm, g))
+    res.floor('R6', 'returns of the derivation helpers', n, 1)
+
+
+def rule_r7(prog, res):
+    from . import c05, c16
+    res.share('R7', 'a facet removed by derivation is gone (C05-R11); '
+              'derivation does not touch the parent\'s subclass registry '
+              '(C16-R9)', 'C05', c05.rule_r11, prog, Result)
+    res.share('R7', 'a facet removed by derivation is gone (C05-R11); '
+              'derivation does not touch the parent\'s subclass registry '
+              '(C16-R9)', 'C16', c16.rule_r9, prog, Result)
+
+
 def run(prog, res, tier):
     res.run_rule(rule_r1, prog, res)
     res.run_rule(rule_r2, prog, res)
     res.run_rule(rule_r3, prog, res, tier)
     res.run_rule(rule_r4, prog, res)
     res.run_rule(rule_r5, prog, res)
+    res.run_rule(rule_r6, prog, res)
+    res.run_rule(rule_r7, prog, res)
 
 
 _C = 'spyne/model/complex.py'
 _B = 'spyne/model/_base.py'
 
 MUTANTS = [
+    Mutant('mandatory-fast-path', 'R6', 'fire', _C,
+           in_func('Mandatory', "    kwargs = dict(min_occurs=1, "
+                   "nillable=False)\n",
+                   "    if cls.Attributes.min_occurs >= 1 and not "
+                   "cls.Attributes.nillable:\n        return cls\n"
+                   "    kwargs = dict(min_occurs=1, nillable=False)\n"),
+           'returns-argument'),
     Mutant('column-args-shallow-copy', 'R4', 'fire', _B,
            in_func('ModelBase._s_customize',
                    r"deepcopy\(\s*cls\.Attributes\.sqla_column_args\)",
